@@ -76,6 +76,9 @@ type phaseScenario struct {
 	// Between: third-party ops run right before every non-dry-run write request of the pass
 	// (i.e. between the pass's read of an object and its write).
 	Between []aEnvOp `json:"between,omitempty"`
+	// Faults: API faults at request indices of the pass (all requests, reads and dry-runs included):
+	// "err" = the request fails without effect, "lost" = the request takes effect and its response is lost.
+	Faults []convFault `json:"faults,omitempty"`
 }
 
 type aEvent struct {
@@ -87,6 +90,7 @@ type aEvent struct {
 	Res  string `json:"res"` // ok | notfound | conflict | <error class>
 	PUID int    `json:"puid"`
 	PRV  int    `json:"prv"`
+	Fault string `json:"fault,omitempty"` // err | lost (injected)
 }
 
 type phaseObs struct {
@@ -217,6 +221,8 @@ func (c *fakeCache) Get(ctx context.Context, key client.ObjectKey, obj client.Ob
 	if tmp.GetLabels()[constants.DynamicCacheLabel] != "True" {
 		gvk := obj.GetObjectKind().GroupVersionKind()
 		k := storeKey{gvk.Group, gvk.Kind, key.Namespace, key.Name}
+		// the caller has not seen the object: the lookup behind the cache is not a read of the pass
+		c.s.ForgetRead(k)
 		return apierrors.NewNotFound(gr(k), key.Name)
 	}
 	return c.s.fromMap(tmp.(*unstructured.Unstructured).Object, obj)
@@ -375,7 +381,7 @@ func eventsFromLog(log []*Request) []aEvent {
 		if abstractKey(r.Key).GK == 0 {
 			continue
 		}
-		e := aEvent{Verb: verb, Key: abstractKey(r.Key), Read: abstractOpt(r.LastRead), Pre: abstractOpt(r.Pre), Post: abstractOpt(r.Post)}
+		e := aEvent{Verb: verb, Key: abstractKey(r.Key), Read: abstractOpt(r.LastRead), Pre: abstractOpt(r.Pre), Post: abstractOpt(r.Post), Fault: r.Fault}
 		switch r.Err {
 		case "":
 			e.Res = "ok"
@@ -459,6 +465,9 @@ func init() {
 		obs := phaseObs{Viol: []string{}, Actual: []aObj{}, Failed: []aKey{}}
 		s.ResetPass()
 		s.WriteHook = func(int) { applyEnvOps(s, sc.Between) }
+		for _, f := range sc.Faults {
+			s.Faults[s.reqIdx+f.Req] = f.Kind
+		}
 		switch sc.Op {
 		case "teardown":
 			done, err := pr.TeardownPhase(ctx, owner, phase)
